@@ -89,6 +89,7 @@ LeafG == PathG
   \cup {OpTransfer(2, U, FALSE), OpDetach(2)}
   \cup {OpBSlice(b, x, y) : b \in 1..2, x \in {U, N(2), N(-3)}, y \in {U, N(-1), N(6), N(100)}}
   \cup {OpSet(v, ic, N(-2)) : v \in 1..3, ic \in {"m1", "z", "last", "len", "big", "negz", "frac"}}
+  \cup {OpGet(v, ic) : v \in 1..3, ic \in {"m1", "z", "mid", "last", "len", "big", "negz", "frac"}}
   \cup {OpFill(v, N(513), x, y) : v \in 1..3, x \in {U, N(1), N(-2)}, y \in {U, N(-1), N(100)}}
   \cup {OpCw(v, x, y, z) : v \in 1..3, x \in {N(0), N(1), N(-1)}, y \in {N(0), N(1), N(2)}, z \in {U, N(-1)}}
   \cup {OpSetArr(v, <<N(1), N(-2)>>, x) : v \in 1..3, x \in {U, N(1), N(3), N(7), N(-1), PInf, FinW(0, "p32")}}
@@ -233,6 +234,7 @@ LeafR ==
   \cup {K(OpNewView(b, t, x, y)) : b \in 1..3, t \in {"Uint8", "Int16", "Uint32", "Uint8C"}, x \in {U, N(2), N(4)}, y \in {U, N(2)}}
   \cup {K(OpNewDv(b, x, y)) : b \in 1..3, x \in {U, N(2)}, y \in {U, N(4)}}
   \cup {OpSet(v, ic, x) : v \in 1..5, ic \in {"m1", "z", "last", "len"}, x \in FewVals}
+  \cup {OpGet(v, ic) : v \in 1..5, ic \in {"z", "mid", "last", "len"}}
   \cup {OpFill(v, x, y, z) : v \in 1..5, x \in FewVals, y \in {U, N(1), N(-2)}, z \in {U, N(-1)}}
   \cup {OpCw(v, x, y, z) : v \in 1..5, x \in {N(0), N(1), N(-2)}, y \in {N(0), N(1), N(3)}, z \in {U, N(-1)}}
   \cup {OpSetArr(v, <<N(300), N(-2), FinQ(1, 2)>>, x) : v \in 1..5, x \in {U, N(1), N(2)}}
@@ -242,6 +244,13 @@ LeafR ==
   \cup {OpFromTA(t, v) : t \in {"Uint8", "Int16", "Int32"}, v \in 1..5}
   \cup {OpDvGet(d, t, N(o), le) : d \in 1..3, t \in {"Int8", "Uint16", "Int32"}, o \in {0, 1, 4, 6}, le \in BOOLEAN}
   \cup {OpDvSet(d, t, N(o), x, le) : d \in 1..3, t \in {"Uint8", "Int16", "Uint32"}, o \in {0, 3, 5}, x \in {N(-2), N(305419896)}, le \in BOOLEAN}
+  \cup {EvR(op, "val", 1, n) : op \in {OpSet(v, "last", N(-3)) : v \in 1..5} \cup {OpFill(v, N(-4), N(1), U) : v \in 1..5}
+                                       \cup {OpDvSet(d, "Int16", N(3), N(-5), TRUE) : d \in 1..3}, n \in {2, 7, 12, 20}}
+  \cup {EvR(op, "a1", 1, n) : op \in {OpCw(v, N(1), N(0), U) : v \in 1..5} \cup {OpSlice(v, N(1), U) : v \in 1..5}
+                                      \cup {K(OpSub(v, N(1), U)) : v \in 1..5} \cup {OpDvGet(d, "Int32", N(2), FALSE) : d \in 1..3}
+                                      \cup {K(OpBSlice(1, N(1), N(7)))}, n \in {2, 7, 12, 20}}
+  \cup {EvRJ(OpSetArr(v, <<N(9), N(-9)>>, N(1)), 2, 1, n) : v \in 1..5, n \in {2, 7, 12}}
+  \cup {EvD(OpFill(v, N(-6), N(0), U), "val", 1) : v \in 1..5}
 
 \* C15_SETUP=<id> in the environment restricts a catalogue to one set-up (one TLC process per set-up)
 Sel(S) == IF "C15_SETUP" \in DOMAIN IOEnv /\ IOEnv.C15_SETUP # "" THEN {su \in S : su.id = IOEnv.C15_SETUP} ELSE S
